@@ -24,12 +24,13 @@ ASSUMPTIONS = [
     'these diagonal patterns is c*T',
 ]
 OPEN_STATEMENTS = [
-    'jw_exact / jw_majorana_exact / jw_one_body_sound / jw_two_body_sound / jw_interaction_op_sound / jw_dch_sound are proved under the decidable hypothesis "exact regime" '
+    'jw_exact / jw_majorana_exact / jw_one_body_sound / jw_two_body_sound / jw_interaction_op_sound / jw_dch_sound / reverse_jw_sound are proved under the decidable hypothesis "exact regime" '
     '(no non-zero value deleted by the |v| < EQ_TOLERANCE test of +=); without it the statements are false by '
     'design of the library; the hypothesis is evaluated by the Model on every generated input and counted in the '
     'distribution (theorem-hypothesis exact-regime)',
-    'reverse_jw_left_inverse (normal_ordered(reverse_jw(jw A)) = normal_ordered A): NOT proved; correspondence of the '
-    'reverse transform + Spec oracle (the returned FermionOperator acts like the QubitOperator) + exact round trips',
+    'reverse_jw_left_inverse is proved as an operator identity (reverse_jw(jw A) acts like A); the literal statement '
+    '"normal_ordered(reverse_jw(jw A)) == normal_ordered(A) as dictionaries" additionally needs the uniqueness of normal '
+    'ordered forms (property C03) and is checked exactly on random A',
     'linearity / multiplicativity / dagger-compatibility of jordan_wigner are consequences of jw_exact in the Spec '
     'semantics (jw_mul_sound, jw_add_sound are the Model-level halves); they are not stated as separate theorems and '
     'are checked exactly on the implementation\'s values',
@@ -227,7 +228,7 @@ def stream_fermion(ctx):
     b.flush()
 
     rng = rng_for(ctx.seed, 'c04-fermion')
-    n_ops = budget(ctx.tier, 250, 2000)
+    n_ops = budget(ctx.tier, 250, 4000)
     if ctx.drift:
         n_ops = max(n_ops, 500)
     prev = None
@@ -301,7 +302,7 @@ def stream_helpers(ctx):
     b = Batch(ctx, st)
     rng = rng_for(ctx.seed, 'c04-helpers')
     N1 = budget(ctx.tier, 7, 9)
-    N2 = budget(ctx.tier, 5, 6)
+    N2 = budget(ctx.tier, 5, 7)
     if ctx.drift:
         N2 = 6
     for p in range(N1):
@@ -338,7 +339,7 @@ def stream_helpers(ctx):
         return '2:' + ('p=s' if p == s else 'p=r') + (':p<q' if p < q else ':p>q')
 
     tuples = list(itertools.product(range(N2), repeat=4))
-    extra = budget(ctx.tier, 300, 3000)
+    extra = budget(ctx.tier, 300, 6000)
     for _ in range(extra):
         tuples.append(tuple(rng.randrange(10) for _ in range(4)))
     for (p, q, r, s) in tuples:
@@ -412,7 +413,7 @@ def stream_tensors(ctx):
                 'exactly with jordan_wigner(get_fermion_operator(.)); distinct = distinct tensors')
     b = Batch(ctx, st)
     rng = rng_for(ctx.seed, 'c04-iop')
-    n_iop = budget(ctx.tier, 70, 500)
+    n_iop = budget(ctx.tier, 70, 900)
     if ctx.drift:
         n_iop = max(n_iop, 120)
     for k in range(n_iop):
@@ -441,7 +442,7 @@ def stream_tensors(ctx):
     b.flush()
 
     rng = rng_for(ctx.seed, 'c04-dch')
-    for k in range(budget(ctx.tier, 40, 400)):
+    for k in range(budget(ctx.tier, 40, 900)):
         n = rng.randint(1, 5)
         cplx = rng.random() < 0.6
         one = numpy.zeros((n, n), dtype=complex if cplx else float)
@@ -527,7 +528,7 @@ def stream_reverse(ctx):
         jF = enc_op('fermion', F.terms)
         n = max(modes_of(jQ), modes_of(jF))
         b.add('reverse_jordan_wigner', case, jF, {'op': 'c04.reverse', 'Q': jQ},
-              oracle('fermion', n, ['op', jF], jQ), canonical=False)
+              oracle('fermion', n, ['op', jF], jQ), canonical=False, regime_req={'op': 'c04.reverse_ok', 'Q': jQ})
     b.flush()
     rng = rng_for(ctx.seed, 'c04-roundtrip')
     for _ in range(budget(ctx.tier, 40, 400)):
@@ -561,23 +562,33 @@ def stream_jellium(ctx):
     pw = importlib.import_module('openfermion.hamiltonians.plane_wave_hamiltonian')
     from openfermion.utils import Grid
     st = Stream('dual-basis-jellium', 'jordan_wigner_dual_basis_jellium / jordan_wigner_dual_basis_hamiltonian against '
-                'jordan_wigner of the FermionOperator Hamiltonian on grids 1-D (length 2..4), 2-D 2x2 (3x3 thorough), '
+                'jordan_wigner of the FermionOperator Hamiltonian on grids 1-D (length 2..4), 2-D 2x2 (3x3 thorough), 2-D with '
+                'unequal lengths (2,3),(3,2) and anisotropic / sheared cells (axis reversal is not a symmetry there), '
                 'spinless and spinful, with and without constant / nuclei; float comparison, absolute tolerance 1e-9 '
                 'on every coefficient of the union of keys')
     jw = of.transforms.jordan_wigner
-    grids = [(1, 2, 1.0), (1, 3, 2.0), (1, 4, 1.5), (2, 2, 1.0)]
+    import numpy as np
+    # scalar cubic grids, grids with unequal lengths per axis, and anisotropic / sheared cells (on the latter
+    # two reversing the axes is not a symmetry, so any mix-up of the orbital numbering convention shows)
+    grids = [(1, 2, 1.0), (1, 3, 2.0), (1, 4, 1.5), (2, 2, 1.0),
+             (2, (2, 3), 1.0), (2, (3, 2), 1.5), (2, 2, np.diag([1.0, 1.7])),
+             (2, (2, 3), np.array([[1.0, 0.3], [0.0, 1.2]]))]
     if ctx.tier == 'thorough':
-        grids += [(2, 3, 2.0), (1, 5, 0.75), (3, 2, 1.0)]
+        grids += [(2, 3, 2.0), (1, 5, 0.75), (3, 2, 1.0), (3, (2, 1, 3), 1.0), (2, (3, 2), np.diag([0.8, 1.3])),
+                  (3, (2, 1, 2), np.diag([1.0, 1.5, 0.7]))]
     for (d, l, scale) in grids:
+        cubic = isinstance(scale, float)
         for spinless in (True, False):
-            if d * 0 + l ** d * (1 if spinless else 2) > 18:
+            npts = int(np.prod(l)) if not isinstance(l, int) else l ** d
+            if npts * (1 if spinless else 2) > 18:
                 continue
-            for const in (False, True):
+            shown = [d, list(l) if not isinstance(l, int) else l, scale if cubic else np.asarray(scale).tolist()]
+            for const in ((False, True) if cubic else (False,)):
                 grid = Grid(d, l, scale)
-                case = {'fn': 'jordan_wigner_dual_basis_jellium', 'grid': [d, l, scale], 'spinless': spinless,
+                case = {'fn': 'jordan_wigner_dual_basis_jellium', 'grid': shown, 'spinless': spinless,
                         'include_constant': const}
                 st.case(case)
-                st.count('jellium:d=%d' % d)
+                st.count('jellium:d=%d:%s' % (d, 'cubic' if cubic and isinstance(l, int) else 'non-symmetric'))
                 ok, fast = call(st, 'jordan_wigner_dual_basis_jellium', case,
                                 lambda: jl.jordan_wigner_dual_basis_jellium(grid, spinless, const))
                 ok2, ref = call(st, 'jordan_wigner(dual_basis_jellium_model)', case,
@@ -588,12 +599,13 @@ def stream_jellium(ctx):
                     if not good:
                         st.violate('dual-basis jellium fast path differs from jordan_wigner(model)', case,
                                    {'max_abs_difference': worst})
-            geometry = [('H', tuple([0.25 * scale] * d)), ('He', tuple([0.6 * scale] * d))]
+            cell = np.asarray(scale) if not cubic else np.diag([scale] * d)
+            geometry = [('H', tuple(cell.dot(np.array([0.25] * d)))), ('He', tuple(cell.dot(np.array([0.6, 0.35, 0.8][:d]))))]
             grid = Grid(d, l, scale)
-            case = {'fn': 'jordan_wigner_dual_basis_hamiltonian', 'grid': [d, l, scale], 'spinless': spinless,
+            case = {'fn': 'jordan_wigner_dual_basis_hamiltonian', 'grid': shown, 'spinless': spinless,
                     'geometry': geometry}
             st.case(case)
-            st.count('hamiltonian:d=%d' % d)
+            st.count('hamiltonian:d=%d:%s' % (d, 'cubic' if cubic and isinstance(l, int) else 'non-symmetric'))
             ok, fast = call(st, 'jordan_wigner_dual_basis_hamiltonian', case,
                             lambda: pw.jordan_wigner_dual_basis_hamiltonian(grid, geometry, spinless, False))
             ok2, ref = call(st, 'jordan_wigner(plane_wave_hamiltonian)', case,
